@@ -31,6 +31,9 @@ var c13Sigma = func() []string {
 	s = append(s, "QUIT !noread")
 	// a login whose spelling differs from the mailbox name it maps to (upper case, +tag, domain)
 	s = append(s, "USER U+tag@x.test")
+	// one over-long command line whose bytes from a reader-buffer boundary on read like a command
+	// of their own: it is ONE line, gets one reply, and deletes nothing
+	s = append(s, "NOOP"+strings.Repeat(" ", 4096-4)+"DELE 2", "NOOP"+strings.Repeat(" ", 256-4)+"QUIT")
 	return s
 }()
 
@@ -65,7 +68,11 @@ type c13Case struct {
 func c13Desc(be string, n int, seq []int) c13Case {
 	cas := c13Case{Backend: be, NMsgs: n, Seq: append([]int{}, seq...)}
 	for _, i := range seq {
-		cas.Lines = append(cas.Lines, c13Sigma[i])
+		l := c13Sigma[i]
+		if len(l) > 80 {
+			l = fmt.Sprintf("%s…(%d bytes)…%s", l[:8], len(l), l[len(l)-8:])
+		}
+		cas.Lines = append(cas.Lines, l)
 	}
 	return cas
 }
@@ -571,6 +578,9 @@ func c13Explore(c *fw.Ctx, be string, nm int, loggedIn bool) {
 				case "STAT", "LIST", "UIDL", "RSET", "NOOP", "QUIT", "XY", " ", "DELE 1", "DELE 2", "DELE 99", "RETR 1", "RETR 2",
 					"LIST 1", "UIDL 2", "TOP 1 1", "!deliver", "!extdel 1", "!extdel 2", "RETR 2 !hangup", "LIST !hangup", "QUIT !noread":
 					alpha = append(alpha, i)
+				}
+				if len(l) > 4000 {
+					alpha = append(alpha, i) // the over-long line whose tail reads "DELE 2"
 				}
 			}
 		}
